@@ -475,3 +475,138 @@ def _callable_table(repo):
             "def c02ProducerSiteRows : List (String × String × String × Nat) := ["
             + ", ".join(f"({lean_str(rel)}, {lean_str(fn)}, {lean_str(kind)}, {n})" for rel, fn, kind, n in sites) + "]")
     return {"callables": rows, "sites": [list(s) for s in sites]}, lean
+
+
+def _scan_output_sites(repo):
+    """per (file, enclosing fn) in crate minijinja: how the rendered text can reach an `Output` —
+    `raw` = a direct write to an `Output` (`out.write_str(` / `write!(out` / `writeln!(out` / `out.write_fmt(`),
+    `escaped` = a call of `write_escaped(`, `formatter` = a call of the environment's formatter
+    (`env().format(`), `sink` = an `Output::new(` (a new place text is collected in)"""
+    out = {}
+    files = glob.glob(os.path.join(repo, "minijinja/src/**/*.rs"), recursive=True)
+    for path in sorted(files):
+        rel = os.path.relpath(path, repo)
+        if "/tests/" in rel or rel.endswith("verif_hooks.rs"):
+            continue
+        src = _cut_tests(_strip_comments(open(path, encoding="utf-8").read()))
+        cur = "?"
+        for line in src.splitlines():
+            m = re.search(r"\bfn\s+(\w+)", line)
+            if m:
+                cur = m.group(1)
+                if cur == "write_escaped":
+                    continue
+            n_raw = len(re.findall(r"\bout\.write_str\(|\bout\.write_fmt\(|\bout\.write_char\(|\bwrite!\(\s*out\b|\bwriteln!\(\s*out\b", line))
+            n_esc = len(re.findall(r"\bwrite_escaped\(", line))
+            n_fmt = len(re.findall(r"env\(\)\s*\.format\(|\benv\.format\(", line))
+            n_new = len(re.findall(r"\bOutput::new\(", line))
+            for kind, n in (("raw", n_raw), ("escaped", n_esc), ("formatter", n_fmt), ("sink", n_new)):
+                if n:
+                    out[(rel, cur, kind)] = out.get((rel, cur, kind), 0) + n
+    return out
+
+
+@item("C02_OUTPUT_WRITE_SITES")
+def _output_sites(repo):
+    """ALL program points of crate minijinja through which text reaches an `Output`: a new raw write
+    (a fast path that bypasses `write_escaped`), a new caller of `write_escaped` / of the formatter, or
+    a new sink breaks `MJ.C02.all_output_write_sites_modelled`"""
+    sc = _scan_output_sites(repo)
+    rows = sorted(f"{rel}::{fn}::{kind}x{n}" for (rel, fn, kind), n in sc.items())
+    if not any("::escaped" in r for r in rows) or not any("::raw" in r for r in rows):
+        raise KeyError("no output write site found")
+    # the multi-line formatter call of Instruction::Emit (`state.env().format(&value, state, out)`) and of
+    # State::format / the escape filter must be among them
+    if not any(r.startswith("minijinja/src/vm/mod.rs::") and "::formatter" in r for r in rows):
+        raise KeyError("Instruction::Emit no longer calls the environment's formatter in the scanned form")
+    return rows, "def c02OutputWriteSites : List String := [" + ", ".join(lean_str(x) for x in rows) + "]"
+
+
+def _call_args(src, start):
+    """the top-level comma separated arguments of the call whose `(` is at src[start]; cfg attributes dropped"""
+    depth, j, cur, args = 0, start, "", []
+    while j < len(src):
+        c = src[j]
+        if c in "([{":
+            depth += 1
+            if depth > 1:
+                cur += c
+        elif c in ")]}":
+            depth -= 1
+            if depth == 0:
+                if cur.strip():
+                    args.append(cur)
+                break
+            cur += c
+        elif c == "," and depth == 1:
+            args.append(cur)
+            cur = ""
+        else:
+            cur += c
+        j += 1
+    clean = []
+    for a in args:
+        a = re.sub(r"#\[cfg\([^\]]*\)\]", "", a)
+        clean.append(" ".join(a.split()))
+    return clean
+
+
+def _resolve_local(src, pos, expr):
+    """a bare identifier argument is replaced by the initialiser of its nearest preceding `let`"""
+    if not re.fullmatch(r"[a-z_]+", expr):
+        return expr
+    before = src[:pos]
+    ms = list(re.finditer(r"let\s+%s\s*=\s*([^;]+);" % re.escape(expr), before))
+    if ms and pos - ms[-1].start() < 1500:
+        return " ".join(ms[-1].group(1).split())
+    return "param:" + expr
+
+
+@item("C02_MODE_SOURCES")
+def _mode_sources(repo):
+    """every program point of crate minijinja that supplies the auto-escape mode an execution starts in
+    (`State::new`, `vm::eval`, `with_execution_state`, the compiled template's flag), with the expression
+    it supplies — rows `file::fn::callee::expr`"""
+    rows = []
+    files = glob.glob(os.path.join(repo, "minijinja/src/**/*.rs"), recursive=True)
+    for path in sorted(files):
+        rel = os.path.relpath(path, repo)
+        if "/tests/" in rel or rel.endswith("verif_hooks.rs"):
+            continue
+        src = _cut_tests(_strip_comments(open(path, encoding="utf-8").read()))
+        fns = [(m.start(), m.group(1)) for m in re.finditer(r"\bfn\s+(\w+)", src)]
+
+        def enclosing(pos):
+            cur = "?"
+            for st, name in fns:
+                if st <= pos:
+                    cur = name
+            return cur
+        for callee, idx in (("with_execution_state", 1), ("State::new", 1), ("vm::eval", 5)):
+            for m in re.finditer(r"(?<![\w:])(?:crate::)?%s\(" % re.escape(callee), src):
+                if re.search(r"fn\s+$", src[max(0, m.start() - 4):m.start()]) or src[max(0, m.start() - 3):m.start()] == "fn ":
+                    continue
+                args = _call_args(src, m.end() - 1)
+                if len(args) <= idx:
+                    raise KeyError(f"{rel}: call of {callee} with {len(args)} arguments")
+                expr = _resolve_local(src, m.start(), args[idx])
+                rows.append(f"{rel}::{enclosing(m.start())}::{callee}::{expr}")
+        # the mode a capture ends in decides whether the captured text is marked
+        for m in re.finditer(r"\.end_capture\(", src):
+            args = _call_args(src, m.end() - 1)
+            if len(args) != 1:
+                raise KeyError(f"{rel}: end_capture with {len(args)} arguments")
+            rows.append(f"{rel}::{enclosing(m.start())}::end_capture::{_resolve_local(src, m.start(), args[0])}")
+        for m in re.finditer(r"\binitial_auto_escape\s*:\s*([^,\n]+),", src):
+            if "AutoEscape" in m.group(1) and "(" not in m.group(1):
+                continue   # the field declaration
+            rows.append(f"{rel}::{enclosing(m.start())}::field::{' '.join(m.group(1).split())}")
+        # the accessors the sites above go through
+        for m in re.finditer(r"fn\s+initial_auto_escape\s*\(", src):
+            body = fn_body(src[m.start():], r"fn\s+initial_auto_escape\s*\([^)]*\)\s*->\s*AutoEscape\s*\{")
+            rows.append(f"{rel}::initial_auto_escape::returns::{' '.join(body.strip().strip('{}').split())}")
+    import collections
+    rows = sorted(f"{r} x{n}" for r, n in collections.Counter(rows).items())
+    if len(rows) < 8:
+        raise KeyError("mode sources: too few sites found")
+    return rows, "def c02ModeSources : List String := [" + ", ".join(lean_str(x) for x in rows) + "]"
